@@ -276,6 +276,8 @@ class AnsiString:
                 if settings_to_remove:
                     self.remove_formatting(settings_to_remove, key)
                 if settings_to_apply:
+                    # Keep the order in which the settings were given in the sequence
+                    settings_to_apply.sort(key=lambda x: __class__._find_setting_reference(x, settings))
                     self.apply_formatting(settings_to_apply, key)
 
     def simplify(self):
